@@ -120,6 +120,7 @@ func inLoop(in ssa.Instruction) bool {
 func runC17(c *Ctx) {
 	w := c.W
 	c17Extras(c)
+	c17Extras3(c)
 	// ---- goroutine roots
 	type root struct {
 		fn     *ssa.Function
